@@ -45,6 +45,13 @@ func ruleA1(c *Ctx) {
 	for _, impl := range c.implementers(iface) {
 		a := methodByName(c, impl, "Accumulate")
 		r := methodByName(c, impl, "Reset")
+		if r == nil {
+			// Reset promoted from an embedded state struct: the method-set entry is a wrapper around it
+			ms := c.Prog.MethodSets.MethodSet(types.NewPointer(impl))
+			if sel := ms.Lookup(impl.Obj().Pkg(), "Reset"); sel != nil {
+				r = c.Prog.MethodValue(sel)
+			}
+		}
 		if a == nil || r == nil {
 			continue
 		}
@@ -186,14 +193,17 @@ func ruleP13(c *Ctx) {
 		return
 	}
 	fi := c.fi(fn)
+	// the string comparison (in rowLess or in the same-package helper that compares one key), the recursive call if any
 	var sl, rec *ssa.Call
-	allInstrs(fn, func(in ssa.Instruction) {
+	var slTop ssa.Instruction
+	var slFn *ssa.Function
+	walkHelpers(fn, 2, func(inFn *ssa.Function, in ssa.Instruction, top ssa.Instruction) {
 		if call, ok := in.(*ssa.Call); ok {
 			if f := call.Call.StaticCallee(); f != nil {
-				if fnName(f) == "stringLess" {
-					sl = call
+				if fnName(f) == "stringLess" && sl == nil {
+					sl, slTop, slFn = call, top, inFn
 				}
-				if f == fn {
+				if f == fn && inFn == fn {
 					rec = call
 				}
 			}
@@ -205,27 +215,73 @@ func ruleP13(c *Ctx) {
 	}
 	cfgParam := fn.Params[2].Name()
 	unparen := func(t string) string { return strings.NewReplacer("(", "", ")", "").Replace(t) }
-	dt := unparen(c.term(sl.Call.Args[2]))
-	c.check(dt == "param:"+cfgParam+"[0].Desc", "rowLess passes the key's direction", sl.Pos(), "stringLess(…, c[0].Desc)", "the direction passed to stringLess is "+dt+", not the first key's Desc: DESC keys sort ascending (or the other way round)")
-	// both lookups use c[0].Binding, one per row
+	// terms are read with the helper's parameters bound to rowLess's arguments
+	var dt string
 	var lookups []string
-	allInstrs(fn, func(in ssa.Instruction) {
-		if lk, ok := in.(*ssa.Lookup); ok && isNamed(lk.X.Type(), modPath+"/bql/table", "Row") {
-			lookups = append(lookups, unparen(c.term(lk.X)+"["+c.term(lk.Index)+"]"))
-		}
-	})
+	collect := func() {
+		dt = unparen(c.term(sl.Call.Args[2]))
+		allInstrs(slFn, func(in ssa.Instruction) {
+			if lk, ok := in.(*ssa.Lookup); ok && isNamed(lk.X.Type(), modPath+"/bql/table", "Row") {
+				lookups = append(lookups, unparen(c.term(lk.X)+"["+c.term(lk.Index)+"]"))
+			}
+		})
+	}
+	if slFn == fn {
+		collect()
+	} else if tc, ok := slTop.(*ssa.Call); ok {
+		intoHelper(slFn, &tc.Call, collect)
+	}
+	// the key is the first element of the (remaining) key list: param c itself, or the loop variable that starts as c
+	// and is re-sliced c[1:] (written phi(param:c | …) by the termer)
+	firstKey := func(t, field string) bool {
+		return strings.HasSuffix(t, "[0]."+field) && strings.Contains(t, "param:"+cfgParam)
+	}
+	c.check(firstKey(dt, "Desc"), "rowLess passes the key's direction", sl.Pos(), "stringLess(…, c[0].Desc)", "the direction passed to stringLess is "+dt+", not the first key's Desc: DESC keys sort ascending (or the other way round)")
+	// both lookups use c[0].Binding, one per row
 	sort.Strings(lookups)
-	want := []string{"param:" + fn.Params[0].Name() + "[param:" + cfgParam + "[0].Binding]", "param:" + fn.Params[1].Name() + "[param:" + cfgParam + "[0].Binding]"}
-	c.check(strings.Join(uniq(lookups), ";") == strings.Join(want, ";"), "rowLess reads both rows under the first key's binding", fn.Pos(), strings.Join(want, " and "), fmt.Sprintf("row lookups are %v", uniq(lookups)))
-	// recursion exactly on equality and not last
-	if rec == nil {
-		c.bad("rowLess moves on to the remaining keys", fn.Pos(), "no recursive call on the remaining keys: rows equal on the first key are never ordered by the second")
+	lookups = uniq(lookups)
+	okLk := len(lookups) == 2
+	var keyTerms []string
+	for _, l := range lookups {
+		k := l[strings.Index(l, "[")+1:]
+		k = strings.TrimSuffix(k, "]")
+		keyTerms = append(keyTerms, k)
+		if !firstKey(k, "Binding") {
+			okLk = false
+		}
+	}
+	if okLk {
+		okLk = keyTerms[0] == keyTerms[1] && strings.HasPrefix(lookups[0], "param:"+fn.Params[0].Name()+"[") && strings.HasPrefix(lookups[1], "param:"+fn.Params[1].Name()+"[")
+	}
+	c.check(okLk, "rowLess reads both rows under the first key's binding", fn.Pos(), "ri[c[0].Binding] and rj[c[0].Binding]", fmt.Sprintf("row lookups are %v", lookups))
+	// moving on to the remaining keys exactly on equality and not last: by a recursive call on c[1:], or by re-slicing
+	// the key list c = c[1:] inside a loop
+	var step ssa.Instruction
+	cmpVal := ssa.Value(sl)
+	if slFn != fn {
+		if tc, ok := slTop.(*ssa.Call); ok {
+			cmpVal = tc
+		}
+	}
+	if rec != nil {
+		step = rec
+	} else {
+		allInstrs(fn, func(in ssa.Instruction) {
+			if sli, ok := in.(*ssa.Slice); ok && sli.High == nil && fi.innermostLoop(in.Block().Index) != nil {
+				if k, isC := constInt(sli.Low); isC && k == 1 && strings.Contains(c.term(sli.X), "param:"+cfgParam) {
+					step = in
+				}
+			}
+		})
+	}
+	if step == nil {
+		c.bad("rowLess moves on to the remaining keys", fn.Pos(), "no recursive call and no loop step on the remaining keys: rows equal on the first key are never ordered by the second")
 		return
 	}
 	less, greater, last := false, false, false
-	for _, ft := range fi.factsAt(rec.Block()) {
+	for _, ft := range fi.factsAt(step.Block()) {
 		bo, ok := ft.Cond.(*ssa.BinOp)
-		if ok && bo.X == ssa.Value(sl) {
+		if ok && bo.X == cmpVal {
 			if k, isC := constInt(bo.Y); isC && k == 0 {
 				if bo.Op == token.LSS && !ft.Truth {
 					less = true
@@ -233,14 +289,17 @@ func ruleP13(c *Ctx) {
 				if bo.Op == token.GTR && !ft.Truth {
 					greater = true
 				}
+				if (bo.Op == token.EQL && ft.Truth) || (bo.Op == token.NEQ && !ft.Truth) {
+					less, greater = true, true
+				}
 			}
 		}
-		if strings.Contains(c.term(ft.Cond), "len(param:"+cfgParam+") == 1") && !ft.Truth {
+		t := c.term(ft.Cond)
+		if strings.Contains(t, "len(") && strings.Contains(t, "param:"+cfgParam) && strings.HasSuffix(t, "== 1)") && !ft.Truth {
 			last = true
 		}
 	}
-	// the result of the recursive call is what is returned
-	c.check(less && greater && last, "rowLess moves on to the remaining keys", rec.Pos(), "recursive call on c[1:] reached exactly when stringLess == 0 and this is not the last key", "the recursive call on the remaining keys is not confined to 'equal on this key and not the last key'")
+	c.check(less && greater && last, "rowLess moves on to the remaining keys", step.Pos(), "the step to c[1:] is reached exactly when the comparison is 0 and this is not the last key", "the step to the remaining keys is not confined to 'equal on this key and not the last key'")
 }
 
 // ---- E1 HAVING comparisons test the kind first ---------------------------------------------------------------------
